@@ -42,5 +42,47 @@ open(p, "w").write(s)
 EOF
     touch "$DST/.shim-ok"
 fi
+
+#  3. vendor/bytes: copy of bytes 1.11.1 in which, under cfg(kani) only,
+#     `Bytes::from(Vec<u8>)` and `Bytes::from(Box<[u8]>)` leak the buffer and
+#     wrap it as a static slice (same content, never freed) instead of the
+#     pointer-tagging "promotable" representation, whose symbolic execution
+#     costs minutes per value.  Impls of generic traits cannot be replaced
+#     with #[kani::stub], hence the shim; see DESIGN.md §1.
+SRC=$(ls -d "$HOME"/.cargo/registry/src/*/bytes-1.11.1 | head -1)
+DST=harness/vendor/bytes
+if [ ! -f "$DST/.shim-ok" ]; then
+    rm -rf "$DST"
+    cp -r "$SRC" "$DST"
+    python3 - "$DST/src/bytes.rs" <<'PYEOF'
+import sys
+p = sys.argv[1]
+s = open(p).read()
+a = "impl From<Vec<u8>> for Bytes {\n    fn from(vec: Vec<u8>) -> Bytes {\n"
+b = "impl From<Box<[u8]>> for Bytes {\n    fn from(slice: Box<[u8]>) -> Bytes {\n"
+assert s.count(a) == 1 and s.count(b) == 1, "bytes source layout changed"
+def patch(s, head, early):
+    i = s.index(head) + len(head)
+    j = s.index("\n    }\n}\n", i)
+    return (s[:i] + "        #[cfg(kani)]\n        { return " + early
+            + "; }\n        #[cfg(not(kani))]\n        {\n" + s[i:j]
+            + "\n        }" + s[j:])
+s = patch(s, a, "Bytes::from_static(Vec::leak(vec))")
+s = patch(s, b, "Bytes::from_static(Box::leak(slice))")
+# Drop: nothing is ever freed under Kani (every Bytes is a leaked or static
+# buffer); Clone: a second static view of the same bytes.  Both avoid the
+# indirect call through the vtable, which CBMC resolves to every candidate
+# (shared / promotable reference counting with pointer tagging).
+d = "        unsafe { (self.vtable.drop)(&mut self.data, self.ptr, self.len) }\n"
+c = "        unsafe { (self.vtable.clone)(&self.data, self.ptr, self.len) }\n"
+assert s.count(d) == 1 and s.count(c) == 1, "bytes source layout changed"
+s = s.replace(d, "        #[cfg(not(kani))]\n" + d)
+s = s.replace(c, "        #[cfg(kani)]\n        { return unsafe { Bytes::from_static("
+              "slice::from_raw_parts(self.ptr, self.len)) }; }\n"
+              "        #[cfg(not(kani))]\n" + c)
+open(p, "w").write(s)
+PYEOF
+    touch "$DST/.shim-ok"
+fi
 cp /repo/Cargo.lock harness/Cargo.lock
 echo "setup ok"
